@@ -34,7 +34,9 @@ type Store struct {
 	OnRead func(l ipld.Link)
 	// fault arming (C22): panic at the k-th (1-based) call of the named callback
 	PanicAt map[string]int
-	calls   map[string]int
+	// PanicValue, when set, makes the value of an injected panic (default: the message string)
+	PanicValue func(msg string) any
+	calls      map[string]int
 	// Instrument adds counting/panicking wrappers for the decoder, the node
 	// reifier and a named ADL reifier ("adl1") to LinkSystem() (C22).
 	Instrument bool
@@ -74,7 +76,11 @@ func (s *Store) Keys() []string {
 func (s *Store) arm(name string) {
 	s.calls[name]++
 	if k := s.PanicAt[name]; k > 0 && s.calls[name] == k {
-		panic(fmt.Sprintf("injected panic in %s call %d", name, k))
+		msg := fmt.Sprintf("injected panic in %s call %d", name, k)
+		if s.PanicValue != nil {
+			panic(s.PanicValue(msg))
+		}
+		panic(msg)
 	}
 }
 
